@@ -36,6 +36,7 @@ typedef struct {
     int keep_data;          /* keep a copy of every written buffer (needed for crash images) */
     /* stall injection for the threaded writer tests */
     void (*on_event)(const io_ev_t *ev);
+    void (*before_io)(void);       /* called before a write/fsync on the target is recorded and issued */
 } iolog_t;
 
 extern iolog_t g_io;
